@@ -1,1 +1,234 @@
-// Correspondence suites for property C19. Each suite is a #[test] fn named verif_c19_<suite>.
+// Correspondence suites for property C19 (resharding). Each suite is a #[test] fn named verif_c19_<suite>.
+//
+// Request grammar
+//   c19.reshard <iter|stream|try> <n> <dests> <hints> <errs>
+//     n      number of shards (1..5); the three helpers run the same thing on replicated shares
+//     dests  one list per source shard, separated by `/`; list = `-` (no records) or comma separated
+//            destination shard of the k-th record of that shard (this IS the shard picker: a table
+//            lookup on (source shard, record id), identical on the three helpers)
+//     hints  `-`, or one number per shard: how much the stream's size hint exceeds its real length
+//            (only `try`; `reshard_try_stream` must cope with streams shorter than their hint);
+//            a NEGATIVE number makes the hint smaller than the stream
+//     errs   `-`, or one entry per shard: position at which the input stream yields `Err`
+//            (`x` = no error on that shard)
+//   The k-th record of shard s carries the value s*1000+k (BA64), so every record is unique.
+//   Response: per shard `/`-separated: the reconstructed output vector (comma separated, `-` empty),
+//   `!` if all three helpers returned Err on that shard, `mixed` if helpers disagree.
+use std::{cell::RefCell, pin::Pin, sync::Arc, task::{Context as TaskContext, Poll}};
+
+use futures::{Stream, stream, stream::StreamExt};
+
+use super::proto::*;
+use crate::{
+    ff::{U128Conversions, boolean_array::BA64},
+    protocol::context::{ShardedContext, reshard_iter, reshard_stream, reshard_try_stream},
+    secret_sharing::replicated::semi_honest::AdditiveShare as Replicated,
+    sharding::{ShardConfiguration, ShardIndex},
+    test_fixture::{Distribute, Reconstruct, Runner, TestWorld, TestWorldConfig, WithShards},
+};
+
+thread_local! {
+    static SIZES: RefCell<Vec<usize>> = const { RefCell::new(Vec::new()) };
+}
+
+/// Distributes the (concatenated) input to the shards in consecutive chunks of the sizes set by the
+/// current request.
+pub struct BySizes;
+
+impl Distribute for BySizes {
+    fn distribute<const SHARDS: usize, A>(input: Vec<A>) -> [Vec<A>; SHARDS] {
+        let sizes = SIZES.with(|s| s.borrow().clone());
+        assert_eq!(sizes.len(), SHARDS, "harness: sizes not set on this thread");
+        let mut it = input.into_iter();
+        std::array::from_fn(|i| it.by_ref().take(sizes[i]).collect())
+    }
+}
+
+/// A stream with a size hint chosen by the harness.
+struct Hinted<S> {
+    inner: Pin<Box<S>>,
+    hint: usize,
+}
+
+impl<S: Stream> Stream for Hinted<S> {
+    type Item = S::Item;
+    fn poll_next(mut self: Pin<&mut Self>, cx: &mut TaskContext<'_>) -> Poll<Option<Self::Item>> {
+        self.inner.as_mut().poll_next(cx)
+    }
+    fn size_hint(&self) -> (usize, Option<usize>) {
+        (0, Some(self.hint))
+    }
+}
+
+fn parse_lists(s: &str) -> Vec<Vec<u32>> {
+    s.split('/').map(|l| parse_nat_list::<u32>(l)).collect()
+}
+
+async fn run_n<const N: usize>(variant: String, dests: Vec<Vec<u32>>, hints: Vec<i64>, errs: Vec<Option<usize>>) -> String {
+    let input: Vec<BA64> = dests
+        .iter()
+        .enumerate()
+        .flat_map(|(s, l)| (0..l.len()).map(move |k| BA64::truncate_from((s * 1000 + k) as u128)))
+        .collect();
+    SIZES.with(|s| *s.borrow_mut() = dests.iter().map(Vec::len).collect());
+    let world: TestWorld<WithShards<N, BySizes>> = TestWorld::with_shards(TestWorldConfig::default());
+    let dests = Arc::new(dests);
+    let hints = Arc::new(hints);
+    let errs = Arc::new(errs);
+    let variant = Arc::new(variant);
+    let r: Vec<[Result<Vec<Replicated<BA64>>, String>; 3]> = world
+        .semi_honest(input.into_iter(), |ctx, shard_input: Vec<Replicated<BA64>>| {
+            let (dests, hints, errs, variant) = (Arc::clone(&dests), Arc::clone(&hints), Arc::clone(&errs), Arc::clone(&variant));
+            async move {
+                let me = usize::from(ctx.shard_id());
+                assert_eq!(shard_input.len(), dests[me].len(), "harness: input distribution");
+                let table = Arc::clone(&dests);
+                let picker = move |c: crate::protocol::context::ShardedSemiHonestContext<'_>, rid: crate::protocol::RecordId, _: &Replicated<BA64>| {
+                    ShardIndex::from(table[usize::from(c.shard_id())][usize::from(rid)])
+                };
+                let res = match variant.as_str() {
+                    "iter" => reshard_iter(ctx, shard_input, picker).await,
+                    "stream" => reshard_stream(ctx, stream::iter(shard_input), picker).await,
+                    "try" => {
+                        let len = shard_input.len();
+                        let mut items: Vec<Result<Replicated<BA64>, crate::error::Error>> = shard_input.into_iter().map(Ok).collect();
+                        if let Some(pos) = errs.get(me).copied().flatten() {
+                            items.insert(pos.min(len), Err(crate::error::Error::InconsistentShares));
+                        }
+                        let extra = hints.get(me).copied().unwrap_or(0);
+                        let hint = usize::try_from((len as i64 + extra).max(0)).unwrap();
+                        reshard_try_stream(ctx, Hinted { inner: Box::pin(stream::iter(items)), hint }, picker).await
+                    }
+                    v => panic!("harness: unknown variant {v}"),
+                };
+                res.map_err(|e| format!("{e:?}"))
+            }
+        })
+        .await;
+    let mut out = Vec::new();
+    for shard in r {
+        let oks = shard.iter().filter(|x| x.is_ok()).count();
+        if oks == 3 {
+            let [a, b, c] = shard.map(Result::unwrap);
+            if a.len() != b.len() || b.len() != c.len() {
+                out.push("mixed".to_string());
+                continue;
+            }
+            let vals: Vec<u128> = [a, b, c].reconstruct().into_iter().map(|v: BA64| v.as_u128()).collect();
+            out.push(nat_list(&vals));
+        } else if oks == 0 {
+            out.push("!".into());
+        } else {
+            out.push("mixed".into());
+        }
+    }
+    out.join("/")
+}
+
+pub fn exec(req: &str) -> String {
+    let t: Vec<&str> = req.split(' ').collect();
+    assert_eq!(t[0], "c19.reshard");
+    let variant = t[1].to_string();
+    let n: usize = t[2].parse().unwrap();
+    let dests = parse_lists(t[3]);
+    assert_eq!(dests.len(), n);
+    let hints: Vec<i64> = if t[4] == "-" { vec![] } else { t[4].split(',').map(|x| x.parse().unwrap()).collect() };
+    let errs: Vec<Option<usize>> = if t[5] == "-" { vec![] } else { t[5].split(',').map(|x| x.parse().ok()).collect() };
+    // TestWorld distributes the input on the thread that first polls the future: run the whole
+    // request on a runtime driven from this thread.
+    let rt = tokio::runtime::Builder::new_multi_thread().worker_threads(3).enable_all().build().unwrap();
+    let r = rt.block_on(async move {
+        tokio::time::timeout(std::time::Duration::from_secs(20), async move {
+            match n {
+                1 => run_n::<1>(variant, dests, hints, errs).await,
+                2 => run_n::<2>(variant, dests, hints, errs).await,
+                3 => run_n::<3>(variant, dests, hints, errs).await,
+                4 => run_n::<4>(variant, dests, hints, errs).await,
+                5 => run_n::<5>(variant, dests, hints, errs).await,
+                _ => panic!("harness: unsupported shard count {n}"),
+            }
+        })
+        .await
+    });
+    rt.shutdown_background();
+    r.unwrap_or_else(|_| "timeout".into())
+}
+
+fn show_lists(d: &[Vec<u32>]) -> String {
+    d.iter().map(|l| nat_list(l)).collect::<Vec<_>>().join("/")
+}
+
+fn gen_dests(rng: &mut Rng, n: usize, sizes: &[usize], picker: &str, target: u32) -> Vec<Vec<u32>> {
+    (0..n)
+        .map(|s| {
+            (0..sizes[s])
+                .map(|k| match picker {
+                    "one" => target,
+                    "rr" => (k % n) as u32,
+                    "stay" => s as u32,
+                    "leave" => ((s + 1) % n) as u32,
+                    "rand" => rng.below(n as u64) as u32,
+                    "val" => ((s * 1000 + k) % n) as u32,
+                    _ => unreachable!(),
+                })
+                .collect()
+        })
+        .collect()
+}
+
+pub fn generate(rng: &mut Rng, thorough: bool) -> Vec<String> {
+    let mut v = Vec::new();
+    let variants = ["iter", "stream", "try"];
+    // boundary: empty everywhere, single record, one shard empty, sizes around the 1.25 capacity estimate
+    for n in 1..=5usize {
+        for (vi, sizes) in [vec![0; n], vec![1; n], (0..n).map(|s| if s == 0 { 0 } else { 3 }).collect::<Vec<_>>(),
+                            (0..n).map(|s| if s + 1 == n { 9 } else { 0 }).collect(), vec![4; n], vec![5; n], (0..n).map(|s| 8 * s).collect()]
+            .into_iter()
+            .enumerate()
+        {
+            for picker in ["one", "rr", "stay", "leave", "rand", "val"] {
+                let target = (vi % n) as u32;
+                let d = gen_dests(rng, n, &sizes, picker, target);
+                let variant = variants[(vi + picker.len()) % 3];
+                v.push(format!("c19.reshard {variant} {n} {} - -", show_lists(&d)));
+            }
+        }
+    }
+    // random sizes 0..40
+    let count = if thorough { 3000 } else { 300 };
+    for i in 0..count {
+        let n = 1 + rng.usize_below(5);
+        let sizes: Vec<usize> = (0..n).map(|_| if rng.below(6) == 0 { 0 } else { rng.usize_below(41) }).collect();
+        let picker = *rng.pick(&["one", "rr", "stay", "leave", "rand", "rand", "val"]);
+        let target = rng.below(n as u64) as u32;
+        let d = gen_dests(rng, n, &sizes, picker, target);
+        let variant = variants[i % 3];
+        let hints = if variant == "try" && rng.bool() {
+            (0..n).map(|_| rng.below(7).to_string()).collect::<Vec<_>>().join(",")
+        } else {
+            "-".into()
+        };
+        v.push(format!("c19.reshard {variant} {n} {} {hints} -", show_lists(&d)));
+    }
+    // failing inputs: every shard's stream yields an error somewhere (positions vary), or claims a
+    // size hint smaller than its length
+    let ecount = if thorough { 300 } else { 45 };
+    for i in 0..ecount {
+        let n = 1 + rng.usize_below(5);
+        let sizes: Vec<usize> = (0..n).map(|_| 1 + rng.usize_below(12)).collect();
+        let d = gen_dests(rng, n, &sizes, "rand", 0);
+        if i % 3 == 2 {
+            let hints = (0..n).map(|s| format!("-{}", 1 + rng.usize_below(sizes[s]))).collect::<Vec<_>>().join(",");
+            v.push(format!("c19.reshard try {n} {} {hints} -", show_lists(&d)));
+        } else {
+            let errs = (0..n).map(|s| rng.usize_below(sizes[s] + 1).to_string()).collect::<Vec<_>>().join(",");
+            v.push(format!("c19.reshard try {n} {} - {errs}", show_lists(&d)));
+        }
+    }
+    v
+}
+
+#[test]
+fn verif_c19_reshard() {
+    run_suite("c19_reshard", generate, exec);
+}
